@@ -111,16 +111,24 @@ ENGINE_OF["C09"] = "tla-history"
 
 # what was added to the coverage after the texts above were written (DESIGN.md section 12 has the history)
 ADDED = {
- "C01": " Also replayed: the interaction and near-miss corpora (precedence contexts, optional positions such as branch labels, code that begins with a sign, non-expressions offered to expression metavariables).",
- "C04": " Also replayed: moved elements, context-line elisions between one-sided ones, late-failing candidates over long lists, a change with more than a dozen elisions; load errors of corpus vectors are violations.",
- "C07": " The library half judges what Apply returns also for '+' sides that cannot be printed.",
- "C08": " Resource targets through the command under an address-space limit and a 30 s watchdog: //line directives with huge numbers, nesting depth 6..26 with a site on every level, lists of 2000 / 20000 elements, six elisions against 30..120 equal elements.",
- "C09": " The abstract file holds nested call terms (changes with repeated metavariables and literal arguments; class 'inner': code rewritten inside a compared place); hand-written sequences outside the rule universe are judged against the observed chain of single-change runs.",
- "C12": " Mode agreement also over files with very long lines, without a final newline, with comments inside one-line rewrites; the dry modes' output for a matching file is judged next to failing files.",
- "C15": " Arguments also reach their target through a symbolic link to the tree and through redundant absolute spellings; Discover.tla models the key by which files are told apart.",
+ "C19": " A bad change name after a two-byte letter (columns count bytes).",
+ "C14": " Sequential and parallel histories also over two import-editing patches (import named by a metavariable over named / unnamed files; two imports deleted from commented blocks).",
+ "C13": " T10: an empty line written as a lone '-' / '+' pair; a context line inside a raw string literal (known finding).",
+ "C11": " The parsed patch may have been applied to other files before the subject (prior); repeated applications must return the same bytes; import blocks with leading comment lines.",
+ "C10": " The parsed patch may have been applied to other files before the subject (prior) and is applied to the subject repeatedly (repeat).",
+ "C06": " Files whose only occurrences of a pattern are at places that cannot hold the replacement are files in which nothing matches.",
+ "C05": " Bare and labelled break / continue side by side.",
+ "C03": " A part of the import universe is replayed for '+' code that calls through a metavariable bound by an import line only (TraceImports: C03_PlusUnderCapturedName).",
+ "C01": " Also replayed: the interaction and near-miss corpora (precedence contexts, optional positions such as branch labels, code that begins with a sign, non-expressions offered to expression metavariables). Clauses of switch statements with and without a list (an elision for the list of a case clause), bare and labelled branch statements.",
+ "C04": " Also replayed: moved elements, context-line elisions between one-sided ones, late-failing candidates over long lists, a change with more than a dozen elisions; load errors of corpus vectors are violations. An argument elision next to a spread argument.",
+ "C07": " The library half judges what Apply returns also for '+' sides that cannot be printed. In-place runs whose write is refused by a file-size limit: a run that reports success leaves no file empty or cut short.",
+ "C08": " Resource targets through the command under an address-space limit and a 30 s watchdog: //line directives with huge numbers, nesting depth 6..26 with a site on every level, lists of 2000 / 20000 elements, six elisions against 30..120 equal elements. Repeated metavariables between several elisions over candidates that differ (known finding).",
+ "C09": " The abstract file holds nested call terms (changes with repeated metavariables and literal arguments; class 'inner': code rewritten inside a compared place); hand-written sequences outside the rule universe are judged against the observed chain of single-change runs. Mirrored inner templates: the repeated metavariable is bound by original code and compared with generated code.",
+ "C12": " Mode agreement also over files with very long lines, without a final newline, with comments inside one-line rewrites; the dry modes' output for a matching file is judged next to failing files. One file under two hard-linked names; standard output carries only what the dry modes emit (-v lines belong to standard error).",
+ "C15": " Arguments also reach their target through a symbolic link to the tree and through redundant absolute spellings; Discover.tla models the key by which files are told apart. The working directory may have been entered through a symbolic link (Discover.tla: CwdMode, cwdvia).",
  "C16": " Further faults: a patch list that cannot be read (stage `load`), standard output that cannot be written to, runs with 255..768 failing files.",
  "C17": " Also: expression sites that gain a token which was absent, files without any comment with comments written in the patch, a kept import with comments.",
- "C18": " Also runs of two and three files with generated files next to each other.",
+ "C18": " Also runs of two and three files with generated files next to each other. Files named like generator output (*_gen.go, *.pb.go) are ordinary files.",
 }
 
 
